@@ -6,7 +6,8 @@ From Exmex.Gen Require Import Tables.
 From Coq Require Import Reals.
 From Coquelicot Require Import Coquelicot.
 From Coq Require Import Sorted Lra.
-From Exmex.Proofs Require Import Vars DeepSem DeepSubs C11Main DeepOps NormalForm RuleAnalysis RealCarrier CalcSem Dual PartialCorrect PartialMain.
+From Exmex.Spec Require Import RefSem.
+From Exmex.Proofs Require Import Vars DeepSem DeepSubs C11Main DeepOps NormalForm Hereditary RuleAnalysis RealCarrier CalcSem Dual PartialCorrect PartialMain.
 Import ListNotations.
 Open Scope nat_scope.
 
@@ -99,9 +100,13 @@ Qed.
 Close Scope R_scope.
 Open Scope nat_scope.
 (* ---- the main theorems ---- *)
+(* `built e` (Proofs/PartialMain.v): the expression is as the constructors of deep.rs build it -- operand counts and
+   operator records of the table at every level, variable nodes indexed in the variable list of the outermost level,
+   every level's list sorted, within that list, and containing the names and lists below it (the parser gives every
+   parenthesis group its own list), and every level in compile normal form. *)
 Theorem C05_partial_is_the_derivative :
   forall (e d : deepex R) (vi fuel : nat),
-  StronglySorted str_lt (dvars e) -> dconsistent (tflagged float_table) (dvars e) e -> nf e -> vi < length (dvars e) ->
+  built e -> vi < length (dvars e) ->
   partial_deepex Rc RDC float_table fuel vi e MError = Ok d ->
   dvars d = dvars e /\ dconsistent (tflagged float_table) (dvars e) d /\ nf d /\
   forall rho : str -> R, in_domain e vi rho ->
@@ -110,12 +115,27 @@ Proof. exact partial_is_derivative. Qed.
 
 Theorem C05_partial_evaluates_to_the_derivative :
   forall (e d : deepex R) (vi fuel : nat) (vals : list R),
-  StronglySorted str_lt (dvars e) -> dconsistent (tflagged float_table) (dvars e) e -> nf e -> vi < length (dvars e) ->
+  built e -> vi < length (dvars e) ->
   partial_deepex Rc RDC float_table fuel vi e MError = Ok d -> length vals = length (dvars e) ->
   in_domain e vi (env_of Rc (dvars e) vals) ->
   exists v, eval_deep Rc d vals = Ok v /\
     is_derive (fun t => match eval_deep Rc e (set_nth vi t vals) with Ok y => y | _ => 0%R end) (nth vi vals 0%R) v.
 Proof. exact partial_evaluates_to_the_derivative. Qed.
+
+(* the premise is met by the deep parse of every well-formed tree, by every index-consistent expression in normal form
+   (what operator application, substitution and conversion return), and by every derivative: "parsed, converted or
+   produced by earlier differentiation" *)
+Theorem C05_parsed_expressions_qualify :
+  forall c : chain (D:=R), wf_chain float_table c = true ->
+  exists e, parse_deep_tokens Rc float_table (flatten c) = Ok e /\ dvars e = find_parsed_vars (flatten c) /\ built e.
+Proof. exact parsed_built. Qed.
+Theorem C05_consistent_expressions_qualify :
+  forall e : deepex R, StronglySorted str_lt (dvars e) -> dconsistent (tflagged float_table) (dvars e) e -> nf e -> built e.
+Proof. exact consistent_built. Qed.
+Theorem C05_derivatives_qualify :
+  forall (e d : deepex R) (vi fuel : nat),
+  built e -> vi < length (dvars e) -> partial_deepex Rc RDC float_table fuel vi e MError = Ok d -> built d.
+Proof. exact partial_built. Qed.
 
 (* non-vacuity: sin(x).  All premises hold, differentiation succeeds over the real carrier with cos(x), every point is in
    the domain; hence cos(x) evaluates to the derivative of the evaluation of sin(x). *)
@@ -126,12 +146,12 @@ Ltac decide_reals :=
   repeat (match goal with |- context [Req_EM_T ?a ?b] =>
             let E := fresh "E" in destruct (Req_EM_T a b) as [E|E]; [try (exfalso; lra)|try (exfalso; apply E; lra)] end; vm_compute).
 Example C05_example_premises :
-  StronglySorted str_lt (dvars ex_sin) /\ dconsistent (tflagged float_table) (dvars ex_sin) ex_sin /\ nf ex_sin /\ 0 < length (dvars ex_sin) /\
+  built ex_sin /\ 0 < length (dvars ex_sin) /\
   partial_deepex Rc RDC float_table 3 0 ex_sin MError = Ok ex_cos /\ forall rho, in_domain ex_sin 0 rho.
 Proof.
-  split; [repeat constructor|]. split.
+  split; [apply consistent_built|]; [repeat constructor| | |].
   { unfold dconsistent, ex_sin. cbn [dvars]. rewrite dwf_unfold. split; [reflexivity|]. split; [reflexivity|]. split; [intros o []|]. constructor; [reflexivity|constructor]. }
-  split; [unfold ex_sin; rewrite nf_unfold; split; [intros d Hd; discriminate|constructor; [exact I|constructor]]|].
+  { unfold ex_sin; rewrite nf_unfold; split; [intros d Hd; discriminate|constructor; [exact I|constructor]]. }
   split; [cbn; auto|]. split.
   - vm_compute. decide_reals. reflexivity.
   - intros rho. unfold in_domain. cbn [dvars ex_sin nth]. unfold ex_sin. rewrite ddual_unfold. cbn. change (ucode_of 10) with CSin. cbn. tauto.
@@ -140,8 +160,8 @@ Example C05_example_conclusion : forall x0 : R,
   exists v, eval_deep Rc ex_cos (x0 :: nil) = Ok v /\
     is_derive (fun t => match eval_deep Rc ex_sin (t :: nil) with Ok y => y | _ => 0%R end) x0 v.
 Proof.
-  intros x0. destruct C05_example_premises as (H1 & H2 & H3 & H4 & H5 & H6).
-  exact (C05_partial_evaluates_to_the_derivative ex_sin ex_cos 0 3 (x0 :: nil) H1 H2 H3 H4 H5 eq_refl (H6 _)).
+  intros x0. destruct C05_example_premises as (H1 & H4 & H5 & H6).
+  exact (C05_partial_evaluates_to_the_derivative ex_sin ex_cos 0 3 (x0 :: nil) H1 H4 H5 eq_refl (H6 _)).
 Qed.
 
 Print Assumptions C05_rule_names_match_code_partial.
@@ -150,3 +170,6 @@ Print Assumptions C05_unary_rules_are_derivatives_partial.
 Print Assumptions C05_binary_rules_are_derivatives_partial.
 Print Assumptions C05_partial_is_the_derivative.
 Print Assumptions C05_partial_evaluates_to_the_derivative.
+Print Assumptions C05_parsed_expressions_qualify.
+Print Assumptions C05_consistent_expressions_qualify.
+Print Assumptions C05_derivatives_qualify.
